@@ -181,12 +181,15 @@ pub enum Op {
     Xor,
     Min,
     Max,
+    /// wrapping subtraction: neither associative nor commutative (sequential mode only)
+    Sub,
 }
 
 pub fn apply(op: Op, a: u8, b: u8) -> u8 {
     match op {
         Op::Add => a.wrapping_add(b),
         Op::Xor => a ^ b,
+        Op::Sub => a.wrapping_sub(b),
         Op::Min => {
             if b < a {
                 b
